@@ -4,11 +4,19 @@ See go/overlay/internal/verifharness/c09/main.go for the producer of these lines
 
   f <Type> <authz-table> <aclRead> <aclWrite> <args…>      → filtered response in the same syntax, or `panic`
   x-begin <s|r> <ttl> <allow|deny|extend-cache|async-cache> → ok          (new resolver: server- or remote-backed)
-  x-put <secret> <accessor> <exp|~> <grants>                → ok          (state store upsert, server mode)
-  x-del <secret>                                            → ok          (token reaped / deleted)
-  x-res <now> <secret> [rpc…]                               → granted <accessor> <grants> | notfound | down <0|1>
+  x-put <secret> <accessor> <exp|~> <grants> <link>         → ok          (state store upsert, server mode)
+  x-del <secret>                                            → ok          (token deleted)
+  x-res <now> <t|p|r> <secret> <round>*                     → t: granted <accessor> <grants> | notfound | down <0|1> | denied
+                                                              p,r: ok <accessor> | notfound | remote | denied
+        (t = ResolveToken / ResolveTokenAndDefaultMeta, p / r = resolveTokenToIdentityAndPolicies / …AndRoles;
+         remote mode: one <round> per possible loop round, `rpc;…;linkanswer`; server mode: none)
   x-mask <now> <secret> <flag> [rpc…]                       → 0 | 1
-  rpc… ::= found <secret> <accessor> <exp|~> <grants> | foreign | notfound | error
+  x-read <now> <secret>                                     → found <accessor> | notfound      (ACL.TokenRead by secret)
+  x-list <now>                                              → accessors of ACL.TokenList, sorted by the harness
+  x-reap <now> <accessors the reaper deleted>               → ok | bad-reap                    (store updated)
+  rpc… ::= found <secret> <accessor> <exp|~> <grants> <link> | foreign | notfound | error
+  round ::= found;<secret>;<accessor>;<exp|~>;<grants |-separated>;<link>;<linkanswer> | foreign;<la> | notfound;<la> | error;<la>
+  linkanswer ::= ok | notfound | denied | error
 
 Lists: `,` (top level) and `|` (nested); item fields: `;` (top level) and `+` (nested); `-` = empty
 list, `~` = nil. The authorizer travels as a decision table over the name universe
@@ -290,11 +298,28 @@ def decDown : String → Option Down
 
 def decExp (t : String) : Option (Option Nat) := if t == "~" then some none else t.toNat?.map some
 
-def decToken (s a e g : String) : Option Token := do
-  some ⟨← decS s, ← decS a, ← decExp e, ← (splitL "," g).mapM decS⟩
+def decToken (s a e g l : String) (gsep : String := ",") : Option Token := do
+  let l ← l.toNat?
+  if l > 2 then none else some ⟨← decS s, ← decS a, ← decExp e, ← (splitL gsep g).mapM decS, l⟩
+
+def decLinkAns : String → Option LinkAns
+  | "ok" => some .ok | "notfound" => some .notFound | "denied" => some .permDenied | "error" => some .error
+  | _ => none
+
+def decRound (tok : String) : Option Round :=
+  match tok.splitOn ";" with
+  | ["found", s, a, e, g, l, la] => do some ⟨.found (← decToken s a e g l "|"), ← decLinkAns la⟩
+  | ["foreign", la] => do some ⟨.foreignLocal, ← decLinkAns la⟩
+  | ["notfound", la] => do some ⟨.notFound, ← decLinkAns la⟩
+  | ["error", la] => do some ⟨.error, ← decLinkAns la⟩
+  | _ => none
+
+def decEp : String → Option EntryPoint
+  | "t" => some .token | "p" => some .policies | "r" => some .roles
+  | _ => none
 
 def decRpc : List String → Option Rpc
-  | ["found", s, a, e, g] => (decToken s a e g).map .found
+  | ["found", s, a, e, g, l] => (decToken s a e g l).map .found
   | ["foreign"] => some .foreignLocal
   | ["notfound"] => some .notFound
   | ["error"] => some .error
@@ -304,10 +329,27 @@ def backendOf (st : XState) (rpc : List String) : Option Backend :=
   if st.server then (if rpc.isEmpty then some (.server st.store) else none)
   else (decRpc rpc).map .remote
 
-def encOutcome : Outcome → String
+def encOutcome2 : Outcome2 → String
   | .granted t => s!"granted {encS t.accessor} {joinL "," (t.grants.map encS)}"
   | .notFound => "notfound"
   | .down b => s!"down {encBool b}"
+  | .denied => "denied"
+  | .noScript => "bad-op"
+
+def insertStr (x : String) : List String → List String
+  | [] => [x]
+  | y :: ys => if x < y then x :: y :: ys else y :: insertStr x ys
+def sortStrs (l : List String) : List String := l.foldr insertStr []
+
+def encLoopRes : LoopRes → String
+  | .ok t => s!"ok {encS t.accessor}"
+  | .notFound => "notfound"
+  | .remoteErr => "remote"
+  | .denied => "denied"
+  | .noScript => "bad-op"
+
+/-- server mode: the rounds carry no outside input -/
+def dummyScript : List Round := List.replicate maxRetries ⟨.notFound, .ok⟩
 
 abbrev State := Option XState
 
@@ -325,22 +367,44 @@ def step (st : State) (toks : List String) : State × String :=
     match decBool mode, ttl.toNat?, decDown down with
     | some m, some ttl, some d => (some ⟨m, ⟨ttl, d⟩, [], []⟩, "ok")
     | _, _, _ => (st, "bad-op")
-  | ["x-put", s, a, e, g] =>
-    match st, decToken s a e g with
+  | ["x-put", s, a, e, g, l] =>
+    match st, decToken s a e g l with
     | some x, some t => (some { x with store := t :: x.store.filter fun u => u.secret ≠ t.secret }, "ok")
     | _, _ => (st, "bad-op")
   | ["x-del", s] =>
     match st, decS s with
     | some x, some s => (some { x with store := x.store.filter fun u => u.secret ≠ s }, "ok")
     | _, _ => (st, "bad-op")
-  | "x-res" :: now :: s :: rpc =>
+  | "x-res" :: now :: ep :: s :: rounds =>
+    match st, now.toNat?, decEp ep, decS s, rounds.mapM decRound with
+    | some x, some now, some ep, some s, some rounds =>
+      if x.server && !rounds.isEmpty then (st, "bad-op")
+      else
+        let store := if x.server then some x.store else none
+        let script := if x.server then dummyScript else rounds
+        match ep with
+        | .token =>
+          let (c, o) := resolveTokenAll x.cfg store x.cache script s now
+          (some { x with cache := c }, encOutcome2 o)
+        | ep =>
+          let (c, o) := resolveLoop x.cfg ep store maxRetries x.cache script s now
+          (some { x with cache := c }, encLoopRes o)
+    | _, _, _, _, _ => (st, "bad-op")
+  | ["x-read", now, s] =>
     match st, now.toNat?, decS s with
     | some x, some now, some s =>
-      match backendOf x rpc with
-      | some b =>
-        let (c, o) := resolveToken x.cfg b x.cache s now
-        (some { x with cache := c }, encOutcome o)
-      | none => (st, "bad-op")
+      match tokenRead x.store s now with
+      | some t => (st, s!"found {encS t.accessor}")
+      | none => (st, "notfound")
+    | _, _, _ => (st, "bad-op")
+  | ["x-list", now] =>
+    match st, now.toNat? with
+    | some x, some now => (st, joinL "," ((sortStrs ((tokenList x.store now).map (·.accessor))).map encS))
+    | _, _ => (st, "bad-op")
+  | ["x-reap", now, acc] =>
+    match st, now.toNat?, (splitL "," acc).mapM decS with
+    | some x, some now, some acc =>
+      if reapOk x.store now acc then (some { x with store := reapApply x.store acc }, "ok") else (st, "bad-reap")
     | _, _, _ => (st, "bad-op")
   | "x-mask" :: now :: s :: flag :: rpc =>
     match st, now.toNat?, decS s, decBool flag with
